@@ -204,6 +204,14 @@ func (x *Exec) evalBuiltin(name string, n *ast.CallExpr, st *State, env *Env) (V
 			for _, a := range n.Args[1:] {
 				x.eval(a, st, env)
 			}
+			if x.con != nil && x.con.Spawns {
+				// a member of the family of channels this call makes: its handle comes from the allocation counter (so
+				// handles made at different times differ), its ghost log lives in the family arrays
+				h := x.c.define("chan", "Int", st.alloc)
+				st.alloc = x.c.define("alloc", "Int", add(h, "1"))
+				x.famState(st, x.c.sortOf(u.Elem()), u.Elem())
+				return Val{T: h, Ty: ty}, true
+			}
 			v := Val{T: x.c.freshConst("chan", "Int"), Ty: ty}
 			x.initHandle(st, v, "made")
 			return v, true
@@ -247,6 +255,10 @@ func (x *Exec) evalBuiltin(name string, n *ast.CallExpr, st *State, env *Env) (V
 			return Val{T: ite(app("<=", a.T, b.T), a.T, b.T), Ty: a.Ty}, true
 		}
 		return Val{T: ite(app(">=", a.T, b.T), a.T, b.T), Ty: a.Ty}, true
+	case "close":
+		x.eval(n.Args[0], st, env)
+		x.c.notes["close(ch) is a no-op in the sequential channel model (termination of receivers is not decided)"] = true
+		return Val{}, true
 	case "panic":
 		x.safety("panic", n, st, "false", "explicit panic unreachable")
 		st.pc = "false"
@@ -439,6 +451,10 @@ func (x *Exec) evalPseudo(name string, n *ast.CallExpr, st *State, env *Env) (Va
 	case "atoi": // the value strconv.Atoi returns for s (the same uninterpreted function the code's call is modelled by)
 		v := x.eval(n.Args[0], st, env)
 		return Val{T: app("gs.atoi", v.T), Ty: tInt}, true
+	case "atoiok": // strconv.Atoi(s) returns a nil error (the same uninterpreted function the code's call is modelled by)
+		v := x.eval(n.Args[0], st, env)
+		x.c.declare("gs.atoierr", "(declare-fun gs.atoierr (Str) "+sortErr+")")
+		return Val{T: eq(app("gs.atoierr", v.T), "err.nil"), Ty: tBool}, true
 	case "splitn", "splitat": // strings.Split(s, sep): number of parts / the j-th part (the model's own functions)
 		v := x.eval(n.Args[0], st, env)
 		sep := x.eval(n.Args[1], st, env)
@@ -540,6 +556,11 @@ func (x *Exec) evalPseudo(name string, n *ast.CallExpr, st *State, env *Env) (Va
 		key := name + ":" + h.T
 		v, ok := st.gh[key]
 		if !ok {
+			if u, isCh := h.Ty.Underlying().(*types.Chan); isCh && name == "sent" {
+				if fv, ok := x.famView(st, x.c.sortOf(u.Elem()), u.Elem(), h.T); ok {
+					return fv, true
+				}
+			}
 			panic(unsupported(name + "() of a handle without ghost state: " + exprString(n.Args[0])))
 		}
 		return v, true
@@ -694,6 +715,13 @@ func (x *Exec) evalPseudo(name string, n *ast.CallExpr, st *State, env *Env) (Va
 		a := x.eval(n.Args[0], st, env)
 		b := x.eval(n.Args[1], st, env)
 		return Val{T: not(eq(x.c.accessor("s.ref", a.T), x.c.accessor("s.ref", b.T))), Ty: tBool}, true
+	case "allocated": // allocated(s): the slice's backing array exists in the current state (its reference is below the allocation counter)
+		a := x.eval(n.Args[0], st, env)
+		r := x.c.accessor("s.ref", a.T)
+		return Val{T: and(app("<=", "0", r), app("<", r, st.alloc)), Ty: tBool}, true
+	case "madechan": // madechan(c): the channel was made by this call (a member of the family; its handle lies in [alloc0, alloc))
+		a := x.eval(n.Args[0], st, env)
+		return Val{T: and(app("<=", x.alloc0, a.T), app("<", a.T, st.alloc)), Ty: tBool}, true
 	case "freshslice": // slice allocated by this call
 		a := x.eval(n.Args[0], st, env)
 		base := x.alloc0
